@@ -16,6 +16,8 @@ impl Property for C02 {
             Segment::random("medium", tier.pick(50_000, 500_000), &[1], 8, 400),
             Segment::random("sparse-large", tier.pick(10_000, 100_000), &[2], 8, 400),
             Segment::enumerated("huge(>2^32 bits)", tier.pick(10, 40), &[9]),
+            // inventory entries of 16/32-bit span classes followed by an entry spanning more than 2^32 bits
+            Segment::enumerated("huge-mixed-spans", tier.pick(8, 48), &[11]),
         ]
     }
     fn rule(&self) -> &'static str {
@@ -23,12 +25,12 @@ impl Property for C02 {
     }
     fn run(&self, data: &[u8], cx: &mut Ctx) -> R {
         let (mode, rest) = data.split_first().unwrap_or((&0, &[]));
-        if *mode == 9 {
+        if *mode == 9 || *mode == 11 {
             let mut b = [0u8; 8];
             b[..rest.len().min(8)].copy_from_slice(&rest[..rest.len().min(8)]);
-            let j = u64::from_le_bytes(b);
+            let j = u64::from_le_bytes(b) + if *mode == 11 { 2000 } else { 0 };
             cx.hash(&("huge", j));
-            cx.describe(|| format!("huge case {j}: more than 2^32 bits, pattern {}", j % 5));
+            cx.describe(|| format!("huge case {j}: more than 2^32 bits, pattern {}", if j >= 2000 { 6 } else { j % 5 }));
             return crate::huge::select_case(cx, j);
         }
         let cap = match mode % 3 {
